@@ -37,6 +37,14 @@ Layers (each enumerated completely up to the tier bound):
           namespace of 100; ladders of 300 tips once per schema with the recursion limit a top-level
           caller has (1000); two 200-character labels.  Same oracle.
 
+  seq     write sequences: every ordered pair (W1, W2) of the 13 writes {newick x (preserve_spaces,
+          unquoted_underscores) grid, nexus x the same grid x translate_tree_taxa, nexml} - also across
+          schemas - on six label templates (underscore, space, both, quote, underscore + quote, plain;
+          each case gets label texts of its own) as taxon and as internal label: write with W1, write
+          the same resp. a fresh equal-labelled tree with W2, read the second text back with the
+          matching reader options; the second round trip is judged by the same oracle.  Each case
+          primes itself, so a replay in a fresh interpreter reproduces it.
+
 Oracle: plain comparison of snapshots (mc/ref.py: taxon label, node label, edge length,
 children in order; rooting flag) and of the namespace's label list.  Signatures name the schema,
 the kind of disagreement (reader exception class, label / length / rooting / namespace change)
@@ -59,7 +67,8 @@ RULE = ("a case = one write/read round trip of one tree or tree list (built thro
         "insertions x internal nodes unlabelled/labelled/with taxa x three rooting states x eight edge-length "
         "patterns; lists: every tuple of length 0..3 over a pool of six trees; labels: nine forms around every single "
         "character, three around every ordered pair (thorough: two around every ordered triple) of the special "
-        "characters; plus, exhaustive over a stated finite set only, large representatives (ladders, balanced trees, "
+        "characters; write sequences: every ordered pair of 13 (schema, writer options) writes on six label "
+        "templates, the second write read back; plus, exhaustive over a stated finite set only, large representatives (ladders, balanced trees, "
         "stars, a broom with 12..100 tips under three label schemes incl. plain numbers, a list of three of them over "
         "one namespace of 100, ladders of 300 tips at the default recursion limit, 200-character labels); non-trivial "
         "= tree has >= 3 leaves, list is non-empty, or the label contains a non-alphanumeric character")
@@ -116,6 +125,10 @@ def bounds(tier):
         "list_of_three_over_one_namespace_of_100": [list(t) for t in BIG_LIST],
         "deep_nesting_at_default_recursion_limit_1000": [list(t) for t in DEEP],
         "long_label_lengths": [len(l) for l in LONG_LABELS]}
+    b["write_sequences"] = {
+        "writes_(schema,options)": [[w[0], "+".join(w[1]) or "default"] for w in SEQ_WRITES],
+        "ordered_pairs": len(SEQ_WRITES) ** 2, "label_templates_(#=unique_suffix)": list(SEQ_TEMPLATES),
+        "sites": ["taxon", "internal"], "second_write_on": ["fresh equal-labelled tree", "the same tree"]}
     names = lambda table: dict((k, ["+".join(o) or "default" for o in v]) for k, v in table.items())
     b["option_sets"] = {"struct_n<=4": names(STRUCT_OPTS), "struct_n=5": names(MID_OPTS), "struct_n=6": names(LITE_OPTS),
                         "unifurcations": names(UNIF_OPTS), "namespace_configs": names(NSCFG_OPTS),
@@ -243,9 +256,10 @@ def has_internal_taxa(case):
     return False
 
 
-def derive(case):
+def derive(case, for_prime=False):
     """(writer kwargs, reader kwargs, expected rooting per tree) for the option groups of the
-    case, or None when the option set is not a consistent pair for these trees."""
+    case, or None when the option set is not a consistent pair for these trees.  for_prime: only
+    the writer kwargs are used (a write that is never read back needs no matching reader)."""
     schema = case["schema"]
     opts = set(case["opts"])
     if not opts <= set(GROUPS[schema]):
@@ -260,7 +274,7 @@ def derive(case):
     if "uu" in opts:
         wkw["unquoted_underscores"] = True
         rkw["preserve_underscores"] = True
-        if "ps" not in opts and any((" " in l) for l in all_labels(case)):
+        if "ps" not in opts and not for_prime and any((" " in l) for l in all_labels(case)):
             return None
     if "translate" in opts:
         if "translate-dict" in opts:
@@ -350,38 +364,59 @@ def evaluate(case, want_text=False):
         sys.setrecursionlimit(old)
 
 
+def _build(case):
+    ns, _bit = build.make_namespace(list(case["ns"]["labels"]), case["ns"]["cfg"])
+    trees = []
+    for td in case["trees"]:
+        t = build.build_tree((td["rooted"], sn_of(td)), ns)
+        if td.get("weight") is not None:
+            t.weight = td["weight"]
+        trees.append(t)
+    return ns, trees
+
+
+def _write(case, api, schema, ns, trees, wkw):
+    if wkw.get("translate_tree_taxa") == "dict":
+        wkw["translate_tree_taxa"] = dict((t, "T%d" % (k + 1)) for k, t in enumerate(ns._taxa))
+    if api == "tree":
+        return _library_call(case, lambda: trees[0].as_string(schema=schema, **wkw))
+    tl = dendropy.TreeList(taxon_namespace=ns)
+    for t in trees:
+        tl.append(t)
+    return _library_call(case, lambda: tl.as_string(schema=schema, **wkw))
+
+
 def _evaluate(case, want_text=False):
     schema = case["schema"]
     d = derive(case)
     if d is None:
         return None, {}
     wkw, rkw, expect_rooted = d
-    ns, _bit = build.make_namespace(list(case["ns"]["labels"]), case["ns"]["cfg"])
-    trees = []
-    for i, td in enumerate(case["trees"]):
-        t = build.build_tree((td["rooted"], sn_of(td)), ns)
-        if td.get("weight") is not None:
-            t.weight = td["weight"]
-        trees.append(t)
+    ns, trees = _build(case)
+    api = case.get("api", "tree")
+    prime = case.get("prime")
+    if prime:
+        # write-sequence layer: an earlier write (same or equal-labelled fresh objects, other options /
+        # schema) in the same process; its output is discarded
+        d1 = derive(dict(case, schema=prime["schema"], opts=prime["opts"]), for_prime=True)
+        if d1 is None:
+            return None, {}
+        pns, ptrees = (ns, trees) if prime.get("reuse") else _build(case)
+        try:
+            _write(case, api, prime["schema"], pns, ptrees, dict(d1[0]))
+        except Exception:
+            pass        # a failing first write is the business of the other layers
     exp_ns = [t._label for t in ns._taxa]
     used = set()
     for td in case["trees"]:
         for nd in ref.preorder(sn_of(td)):
             if nd[0] is not None:
                 used.add(nd[0])
-    api = case.get("api", "tree")
     info = {"wkw": dict(wkw), "rkw": rkw}
     if wkw.get("translate_tree_taxa") == "dict":
-        wkw["translate_tree_taxa"] = dict((t, "T%d" % (k + 1)) for k, t in enumerate(ns._taxa))
         info["wkw"]["translate_tree_taxa"] = "{taxon k: 'T<k>'}"
     try:
-        if api == "tree":
-            text = _library_call(case, lambda: trees[0].as_string(schema=schema, **wkw))
-        else:
-            tl = dendropy.TreeList(taxon_namespace=ns)
-            for t in trees:
-                tl.append(t)
-            text = _library_call(case, lambda: tl.as_string(schema=schema, **wkw))
+        text = _write(case, api, schema, ns, trees, wkw)
     except Exception as e:
         return [("write-raises:%s" % type(e).__name__, "writer raised %r" % (e,))], info
     if want_text:
@@ -535,6 +570,8 @@ def signature(case, kind):
     as 'x<c>y', preferably in the same way and without any option), else the character class
     of the label; option groups are named only when the failure needs them."""
     schema = case["schema"]
+    if case.get("layer") == "seq":
+        return seq_signature(case, kind)
     opts = minimal_opts(case, kind) if case["opts"] else []
     opt_tag = ("|opt:" + "+".join(sorted(opts))) if opts else ""
     if case.get("layer") == "label":
@@ -825,6 +862,79 @@ def run_label3(chunk, ctx):
 
 
 # ---------------------------------------------------------------------------
+# write-sequence layer: state that a write leaves behind in the process must not change a later
+# write.  A case = [write W1 = (schema1, options1); write the same / a fresh equal-labelled tree with
+# W2 = (schema2, options2); read the second text back with the matching reader options].  Every case
+# primes itself, and every case uses label texts of its own (a unique alphanumeric suffix), so that
+# state keyed by label text cannot leak from one case into another.
+
+SEQ_TEMPLATES = ["Homo_sapiens#", "Homo sapiens#", "H_s x#", "it's#", "a_b'c#", "plain#"]
+SEQ_WRITES = ([("newick", o) for o in ((), ("ps",), ("uu",), ("ps", "uu"))]
+              + [("nexus", o) for o in ((), ("ps",), ("uu",), ("ps", "uu"), ("translate",), ("ps", "translate"),
+                                        ("translate", "uu"), ("ps", "translate", "uu"))]
+              + [("nexml", ())])
+_probe_tag = [0]
+
+
+def seq_case(w1, w2, template, site, reuse, tag):
+    label = template.replace("#", tag)
+    case = label_case(w2[0], w2[1], label, site, 1 if site == "taxon" else 0)
+    case["layer"] = "seq"
+    case["prime"] = {"schema": w1[0], "opts": list(w1[1]), "reuse": bool(reuse)}
+    case["template"] = template
+    case["tag"] = tag
+    return case
+
+
+def _seq_probe(case, w1, w2, kind):
+    """does the same kind of failure appear for the pair (w1, w2) on a label text never used before?"""
+    _probe_tag[0] += 1
+    c = seq_case(w1, w2, case["template"], case["site"], case["prime"].get("reuse"), case["tag"] + "P%d" % _probe_tag[0])
+    ks = kinds_of(c)
+    return ks is not None and any(_kind_class(k) == _kind_class(kind) for k in ks)
+
+
+def seq_signature(case, kind):
+    """write-sequence|<schema1>:<options1>-><schema2>:<options2>|<kind>, options reduced greedily to
+    those the failure needs (probed on fresh label texts); 'no-first-write-needed' if it fails alone."""
+    w1 = (case["prime"]["schema"], list(case["prime"]["opts"]))
+    w2 = (case["schema"], list(case["opts"]))
+    single = dict(case)
+    single.pop("prime")
+    _probe_tag[0] += 1
+    single = label_case(w2[0], w2[1], case["template"].replace("#", case["tag"] + "P%d" % _probe_tag[0]), case["site"],
+                        case.get("pos", 0))
+    ks = kinds_of(single)
+    if ks is not None and any(_kind_class(k) == _kind_class(kind) for k in ks):
+        return "write-sequence|no-first-write-needed|%s:%s|%s" % (w2[0], "+".join(sorted(w2[1])) or "default", _kind_class(kind))
+    for g in sorted(w1[1]):
+        trial = (w1[0], [o for o in w1[1] if o != g])
+        if _seq_probe(case, trial, w2, kind):
+            w1 = trial
+    for g in sorted(w2[1]):
+        trial = (w2[0], [o for o in w2[1] if o != g])
+        if _seq_probe(case, w1, trial, kind):
+            w2 = trial
+    return "write-sequence|%s:%s->%s:%s|%s" % (w1[0], "+".join(sorted(w1[1])) or "default",
+                                               w2[0], "+".join(sorted(w2[1])) or "default", _kind_class(kind))
+
+
+def run_seq(chunk, ctx):
+    i1 = chunk["first"]
+    w1 = SEQ_WRITES[i1]
+    for i2, w2 in enumerate(SEQ_WRITES):
+        ctx.count("write_pairs")
+        for ti, template in enumerate(SEQ_TEMPLATES):
+            for si, site in enumerate(("taxon", "internal")):
+                for reuse in (0, 1):
+                    tag = "Q%dx%dx%d%d%d" % (i1, i2, ti, si, reuse)
+                    case = seq_case(w1, w2, template, site, reuse, tag)
+                    if check(case, ctx, ("seq", i1, i2, ti, si, reuse), True,
+                             sample=(i1 == 3 and i2 == 1 and ti == 0 and si == 0 and reuse == 0)):
+                        ctx.count("write_sequences")
+
+
+# ---------------------------------------------------------------------------
 # large representatives (size-triggered defects: multi-digit taxon numbers, string-vs-number
 # ordering, recursion depth, long tokens).  Exhaustive over the stated finite set only.
 
@@ -969,6 +1079,8 @@ def chunks(tier):
         step = 30 if n <= 3 else (2 if n == 4 else 6)
         for lo in range(0, ns, step):
             out.append({"kind": "struct", "which": "unif", "n": n, "lo": lo, "hi": min(ns, lo + step), "tier": tier})
+    for i in range(len(SEQ_WRITES)):
+        out.append({"kind": "seq", "first": i, "tier": tier})
     for i in range(len(BIG_TREES)):
         out.append({"kind": "big", "what": "tree", "index": i, "tier": tier})
     for what in ("list", "deep", "long"):
@@ -990,6 +1102,8 @@ def run_chunk(chunk, ctx):
     k = chunk["kind"]
     if k == "struct":
         run_struct(chunk, ctx)
+    elif k == "seq":
+        run_seq(chunk, ctx)
     elif k == "big":
         run_big(chunk, ctx)
     elif k == "list":
